@@ -882,4 +882,30 @@ example : graphWeight .mainnet 0 23 = 0 ∧ graphWeight .mainnet 0 21 = 2^62 := 
 * siphash / blake2b are executable models compared by value; nothing is proved about them (the
   graph theorems hold for every endpoint function). -/
 
+/-- **`Proof::read` refuses an edge-bits byte outside 1..=63** whatever bytes follow (the guard in
+front of the nonce parsing; compared with the real reader on the bytes 0 and 64..255 in run `pack`);
+and a proof it accepts has exactly `ps` nonces. -/
+theorem proof_read_refuses_bad_edge_bits (w ps : Nat) (bs : Bytes) (h : w = 0 ∨ 63 < w) :
+    readProof w ps bs = none := by
+  unfold readProof
+  rw [if_pos h]
+
+theorem proof_read_ok_edge_bits (w ps : Nat) (bs : Bytes) (ns : List Nat)
+    (h : readProof w ps bs = some ns) : 1 ≤ w ∧ w ≤ 63 ∧ 8 ≤ packLen w ps ∧ ns.length = ps := by
+  unfold readProof at h
+  split at h
+  · cases h
+  rename_i hw
+  split at h
+  · cases h
+  rename_i hl
+  dsimp only at h
+  split at h
+  · cases h
+  cases h
+  refine ⟨by omega, by omega, by omega, by simp⟩
+
+example : readProof 64 8 (List.replicate 64 0) = none ∧ readProof 0 8 [] = none ∧
+    readProof 10 8 (List.replicate 10 0) = some (List.replicate 8 0) := by decide +kernel
+
 end GV.Props.C05
